@@ -757,7 +757,13 @@ impl InferContext {
         let mut sum_types: std::collections::HashMap<Symbol, TypeNodeId> =
             std::collections::HashMap::new();
 
-        for (type_name, decl_info) in type_declarations {
+        // The declarations come in a HashMap and a later registration of a constructor name
+        // replaces an earlier one, so visit them in a fixed order: otherwise a program in which
+        // two sum types share a constructor name compiles differently from process to process.
+        let mut ordered_declarations: Vec<_> = type_declarations.iter().collect();
+        ordered_declarations.sort_by(|a, b| a.0.as_str().cmp(b.0.as_str()));
+
+        for (type_name, decl_info) in ordered_declarations.iter().copied() {
             let variants = &decl_info.variants;
             let variant_data: Vec<(Symbol, Option<TypeNodeId>)> =
                 variants.iter().map(|v| (v.name, v.payload)).collect();
@@ -775,7 +781,7 @@ impl InferContext {
         }
 
         // Second pass: For recursive types, wrap self-references in Boxed
-        for (type_name, decl_info) in type_declarations {
+        for (type_name, decl_info) in ordered_declarations.iter().copied() {
             if !decl_info.is_recursive {
                 continue;
             }
@@ -819,7 +825,7 @@ impl InferContext {
         }
 
         // Register constructors for non-recursive types
-        for (type_name, decl_info) in type_declarations {
+        for (type_name, decl_info) in ordered_declarations.iter().copied() {
             if decl_info.is_recursive {
                 continue;
             }
